@@ -21,13 +21,35 @@ use wgsl_to_wgpu::verif_hooks::{self, process::ChildIo, process::SpawnSpec, Back
 #[serde(tag = "family", rename_all = "snake_case")]
 pub enum Family {
     /// f_i calls f_{i-1} once. kind: 0 value-returning, 1 void, 2 alternating.
-    Chain { depth: u32, kind: u8, placement: u8 },
+    Chain {
+        depth: u32,
+        kind: u8,
+        placement: u8,
+        /// helpers touch no global variable at all (pure math helpers)
+        #[serde(default)]
+        pure_helpers: bool,
+    },
     /// f_i calls f_{i-1} `fan` times (two or more call sites per level).
-    Diamond { depth: u32, fan: u32, kind: u8, placement: u8 },
+    Diamond {
+        depth: u32,
+        fan: u32,
+        kind: u8,
+        placement: u8,
+        #[serde(default)]
+        pure_helpers: bool,
+    },
     /// One shared helper called from `sites` call sites of each of `callers` functions.
     Fanout { sites: u32, callers: u32, kind: u8 },
     /// Layered DAG: `width` functions per layer, each calling 1..=`callees` functions one layer down.
-    Dag { depth: u32, width: u32, callees: u32, seed: u64, entries: u32 },
+    Dag {
+        depth: u32,
+        width: u32,
+        callees: u32,
+        seed: u64,
+        entries: u32,
+        #[serde(default)]
+        pure_helpers: bool,
+    },
     /// Struct nesting: level i has `members` members of level i-1's struct; `globals` variables use the top.
     Types { depth: u32, members: u32, globals: u32, arrays: bool },
     /// No depth at all: about `tokens` tokens of flat declarations (size control).
@@ -37,6 +59,9 @@ pub enum Family {
 impl Family {
     pub fn name(&self) -> &'static str {
         match self {
+            Family::Chain { pure_helpers: true, .. } => "chain_pure",
+            Family::Diamond { pure_helpers: true, .. } => "diamond_pure",
+            Family::Dag { pure_helpers: true, .. } => "layered_dag_pure",
             Family::Chain { kind: 0, .. } => "chain_value",
             Family::Chain { kind: 1, .. } => "chain_void",
             Family::Chain { .. } => "chain_mixed",
@@ -128,16 +153,28 @@ fn place_call(out: &mut String, callee: &str, value: bool, placement: u8, n: u32
 }
 
 fn fn_open(out: &mut String, name: &str, value: bool) {
+    fn_open_p(out, name, value, false)
+}
+
+fn fn_close(out: &mut String, value: bool) {
+    fn_close_p(out, value, false)
+}
+
+fn fn_open_p(out: &mut String, name: &str, value: bool, pure_helpers: bool) {
     if value {
         let _ = writeln!(out, "fn {name}(x: f32) -> f32 {{\n    var r = x;");
+    } else if pure_helpers {
+        let _ = writeln!(out, "fn {name}() {{\n    let x = 0.75;\n    var r = x;");
     } else {
         let _ = writeln!(out, "fn {name}() {{\n    let x = params.x;\n    var r = x;");
     }
 }
 
-fn fn_close(out: &mut String, value: bool) {
+fn fn_close_p(out: &mut String, value: bool, pure_helpers: bool) {
     if value {
         let _ = writeln!(out, "    return r;\n}}");
+    } else if pure_helpers {
+        let _ = writeln!(out, "    _ = r;\n}}");
     } else {
         let _ = writeln!(out, "    acc_buf[0] = r;\n}}");
     }
@@ -174,20 +211,26 @@ fn entry(out: &mut String, stage: u32, name: &str, callee: &str, value: bool) {
 pub fn source(family: &Family) -> String {
     let mut out = String::new();
     match family {
-        Family::Chain { depth, kind, placement } | Family::Diamond { depth, kind, placement, .. } => {
+        Family::Chain { depth, kind, placement, pure_helpers }
+        | Family::Diamond { depth, kind, placement, pure_helpers, .. } => {
             let fan = match family {
                 Family::Diamond { fan, .. } => *fan,
                 _ => 1,
             };
+            let pure_helpers = *pure_helpers;
             out.push_str(GLOBALS);
             let v0 = is_value(*kind, 0);
-            fn_open(&mut out, "fn0", v0);
-            let _ = writeln!(out, "    r = r + acc_buf[3];");
-            fn_close(&mut out, v0);
+            fn_open_p(&mut out, "fn0", v0, pure_helpers);
+            if !pure_helpers {
+                let _ = writeln!(out, "    r = r + acc_buf[3];");
+            } else {
+                let _ = writeln!(out, "    r = r * 0.5 + 1.0;");
+            }
+            fn_close_p(&mut out, v0, pure_helpers);
             for level in 1..=*depth {
                 let v = is_value(*kind, level);
                 let callee_v = is_value(*kind, level - 1);
-                fn_open(&mut out, &format!("fn{level}"), v);
+                fn_open_p(&mut out, &format!("fn{level}"), v, pure_helpers);
                 for site in 0..fan {
                     place_call(
                         &mut out,
@@ -197,7 +240,7 @@ pub fn source(family: &Family) -> String {
                         site,
                     );
                 }
-                fn_close(&mut out, v);
+                fn_close_p(&mut out, v, pure_helpers);
             }
             let top_v = is_value(*kind, *depth);
             entry(&mut out, 0, "cs_main", &format!("fn{depth}"), top_v);
@@ -226,12 +269,17 @@ pub fn source(family: &Family) -> String {
             }
             let _ = writeln!(out, "    acc_buf[4] = t;\n}}");
         }
-        Family::Dag { depth, width, callees, seed, entries } => {
+        Family::Dag { depth, width, callees, seed, entries, pure_helpers } => {
             let mut rng = Rng::new(*seed);
+            let pure_helpers = *pure_helpers;
             out.push_str(GLOBALS);
             for w in 0..*width {
                 fn_open(&mut out, &format!("d0x{w}"), true);
-                let _ = writeln!(out, "    r = r + acc_buf[{}];", w % 8);
+                if !pure_helpers {
+                    let _ = writeln!(out, "    r = r + acc_buf[{}];", w % 8);
+                } else {
+                    let _ = writeln!(out, "    r = r * 0.5 + {w}.0;");
+                }
                 fn_close(&mut out, true);
             }
             for level in 1..=*depth {
@@ -239,7 +287,7 @@ pub fn source(family: &Family) -> String {
                     let v = rng.chance(700);
                     // value functions are named ..v, void ones ..u, so callers know how to call
                     let name = format!("d{level}x{w}");
-                    fn_open(&mut out, &name, v);
+                    fn_open_p(&mut out, &name, v, pure_helpers);
                     let n = rng.range(1, (*callees).max(1) as u64) as u32;
                     for site in 0..n {
                         let target = rng.below(*width as u64);
@@ -248,7 +296,7 @@ pub fn source(family: &Family) -> String {
                         let callee_is_value = out.contains(&format!("fn {callee}(x: f32)"));
                         place_call(&mut out, &callee, callee_is_value, rng.below(6) as u8, site);
                     }
-                    fn_close(&mut out, v);
+                    fn_close_p(&mut out, v, pure_helpers);
                 }
             }
             for e in 0..*entries {
@@ -319,6 +367,11 @@ pub fn token_count(src: &str) -> u64 {
     }
     n
 }
+
+/// Hard CPU-time cap per case (the process is killed) and the threshold above which a finished
+/// case counts as a violation. Cases on the unchanged tree need 1-40 ms.
+pub const CPU_CASE_CAP_S: u64 = 10;
+pub const CPU_CASE_LIMIT_MS: u64 = 5000;
 
 pub fn budget(src: &str) -> u64 {
     let l = token_count(src);
@@ -437,25 +490,32 @@ pub fn systematic_families() -> Vec<Family> {
     let mut v = Vec::new();
     for kind in 0..3u8 {
         for depth in [1, 2, 4, 8, 16, 24, 32, 48, 64] {
-            v.push(Family::Chain { depth, kind, placement: 0 });
+            v.push(Family::Chain { depth, kind, placement: 0, pure_helpers: false });
+            if depth >= 16 {
+                v.push(Family::Chain { depth, kind, placement: 0, pure_helpers: true });
+            }
         }
         for depth in [2, 8, 16, 32, 64] {
-            v.push(Family::Diamond { depth, fan: 2, kind, placement: 0 });
+            v.push(Family::Diamond { depth, fan: 2, kind, placement: 0, pure_helpers: false });
+            if depth >= 16 {
+                v.push(Family::Diamond { depth, fan: 2, kind, placement: 0, pure_helpers: true });
+            }
         }
-        v.push(Family::Diamond { depth: 40, fan: 3, kind, placement: 2 });
+        v.push(Family::Diamond { depth: 40, fan: 3, kind, placement: 2, pure_helpers: kind == 1 });
         for sites in [1, 10, 50, 200] {
             v.push(Family::Fanout { sites, callers: 1, kind });
         }
         v.push(Family::Fanout { sites: 20, callers: 10, kind });
     }
     for placement in 1..6u8 {
-        v.push(Family::Chain { depth: 40, kind: 2, placement });
-        v.push(Family::Diamond { depth: 30, fan: 2, kind: 2, placement });
+        v.push(Family::Chain { depth: 40, kind: 2, placement, pure_helpers: placement % 2 == 0 });
+        v.push(Family::Diamond { depth: 30, fan: 2, kind: 2, placement, pure_helpers: placement % 2 == 1 });
     }
     for (depth, width, callees) in [(8, 4, 2), (16, 4, 3), (32, 6, 4), (64, 3, 2), (64, 5, 4)] {
-        v.push(Family::Dag { depth, width, callees, seed: 11, entries: 3 });
+        v.push(Family::Dag { depth, width, callees, seed: 11, entries: 3, pure_helpers: false });
+        v.push(Family::Dag { depth, width, callees, seed: 12, entries: 2, pure_helpers: true });
     }
-    for (depth, members) in [(1, 32), (2, 16), (4, 8), (6, 16), (8, 4), (10, 3), (15, 2), (12, 3)] {
+    for (depth, members) in [(1, 32), (2, 16), (4, 8), (6, 16), (8, 4), (10, 3), (15, 2), (12, 3), (27, 2), (24, 2), (17, 3), (13, 4), (9, 8), (5, 32), (60, 1)] {
         v.push(Family::Types { depth, members, globals: 1, arrays: false });
     }
     v.push(Family::Types { depth: 6, members: 8, globals: 16, arrays: false });
@@ -472,12 +532,14 @@ pub fn random_family(rng: &mut Rng) -> Family {
             depth: rng.range(1, 64) as u32,
             kind: rng.below(3) as u8,
             placement: rng.below(12) as u8,
+            pure_helpers: rng.chance(400),
         },
         2..=3 => Family::Diamond {
             depth: rng.range(1, 64) as u32,
             fan: rng.range(2, 4) as u32,
             kind: rng.below(3) as u8,
             placement: rng.below(12) as u8,
+            pure_helpers: rng.chance(400),
         },
         4 => Family::Fanout {
             sites: rng.range(1, 200) as u32,
@@ -490,17 +552,20 @@ pub fn random_family(rng: &mut Rng) -> Family {
             callees: rng.range(1, 4) as u32,
             seed: rng.below(1 << 30),
             entries: rng.range(1, 9) as u32,
+            pure_helpers: rng.chance(400),
         },
         7..=8 => {
-            let depth = rng.range(1, 15) as u32;
-            // keep the nominal struct size below 2^31 bytes: members^depth * 16
+            // naga does not enforce WGSL's nesting limit of 15, only that sizes fit in u32:
+            // keep the nominal struct size members^depth * 16 below 2^32 bytes
+            let depth = rng.range(1, 27) as u32;
             let max_members = match depth {
-                1..=3 => 32,
-                4..=5 => 16,
-                6 => 12,
-                7..=8 => 6,
-                9..=10 => 4,
-                11..=13 => 3,
+                1..=5 => 32,
+                6 => 16,
+                7 => 12,
+                8..=9 => 8,
+                10 => 6,
+                11..=13 => 4,
+                14..=17 => 3,
                 _ => 2,
             };
             Family::Types {
@@ -536,13 +601,6 @@ pub fn batch_main(args: &[String]) -> i32 {
         eprintln!("usage: c20-batch <seed> <n_random> <lo> <hi> <cpu_seconds>");
         return 2;
     };
-    unsafe {
-        let lim = libc::rlimit {
-            rlim_cur: cpu_limit,
-            rlim_max: cpu_limit + 5,
-        };
-        libc::setrlimit(libc::RLIMIT_CPU, &lim);
-    }
     let cases = all_cases(seed, n_random);
     let stdout = std::io::stdout();
     for index in lo..hi.min(cases.len() as u64) {
@@ -551,6 +609,16 @@ pub fn batch_main(args: &[String]) -> i32 {
             let mut out = stdout.lock();
             let _ = writeln!(out, "START {index}");
             let _ = out.flush();
+        }
+        // CPU-time limit for this case alone: SIGXCPU ends the process, the parent restarts
+        // the batch behind the offending case.
+        unsafe {
+            let used = cpu_ms() / 1000;
+            let lim = libc::rlimit {
+                rlim_cur: used + cpu_limit + 1,
+                rlim_max: used + cpu_limit + 6,
+            };
+            libc::setrlimit(libc::RLIMIT_CPU, &lim);
         }
         let src = source(family);
         let measured = measure(&src, *validate);
@@ -565,6 +633,29 @@ pub fn batch_main(args: &[String]) -> i32 {
         let _ = writeln!(out, "DONE {line}");
         let _ = out.flush();
     }
+    0
+}
+
+/// `wgsl-sim c20-one <file> <validate>`: measure one source under the per-case CPU cap.
+pub fn one_main(args: &[String]) -> i32 {
+    let (Some(path), Some(validate)) = (args.first(), args.get(1)) else {
+        return 2;
+    };
+    let Ok(src) = std::fs::read_to_string(path) else {
+        return 2;
+    };
+    unsafe {
+        let lim = libc::rlimit {
+            rlim_cur: CPU_CASE_CAP_S + 1,
+            rlim_max: CPU_CASE_CAP_S + 6,
+        };
+        libc::setrlimit(libc::RLIMIT_CPU, &lim);
+    }
+    let m = measure(&src, validate == "1");
+    println!(
+        "tokens={} budget={} ticks={} exceeded={} outcome={} cpu_ms={}",
+        m.tokens, m.budget, m.ticks, m.exceeded, m.outcome, m.cpu_ms
+    );
     0
 }
 
@@ -595,7 +686,7 @@ fn run_batches(seed: u64, n_random: u64, total: u64) -> Result<BatchOutcome, Str
     let cpu_limit: u64 = std::env::var("VERIF_C20_CPU_LIMIT")
         .ok()
         .and_then(|s| s.parse().ok())
-        .unwrap_or(120);
+        .unwrap_or(CPU_CASE_CAP_S);
     let mut children = Vec::new();
     let mut lo = 0;
     while lo < total {
@@ -620,7 +711,8 @@ fn run_batches(seed: u64, n_random: u64, total: u64) -> Result<BatchOutcome, Str
         results: Vec::new(),
         backstop: Vec::new(),
     };
-    for (lo, hi, child) in children {
+    let mut queue: std::collections::VecDeque<(u64, u64, std::process::Child)> = children.into();
+    while let Some((lo, hi, child)) = queue.pop_front() {
         let out = child
             .wait_with_output()
             .map_err(|e| format!("wait batch: {e}"))?;
@@ -642,9 +734,26 @@ fn run_batches(seed: u64, n_random: u64, total: u64) -> Result<BatchOutcome, Str
             let cpu_kill = sig == Some(libc::SIGXCPU) || sig == Some(libc::SIGKILL);
             match (cpu_kill, started) {
                 (true, Some(i)) if !done.contains(&i) => {
-                    outcome
-                        .backstop
-                        .push((i, format!("batch {lo}..{hi} killed by signal {sig:?} (CPU limit {cpu_limit}s) while running case {i}")));
+                    outcome.backstop.push((
+                        i,
+                        format!("case {i} used more than {cpu_limit} s of CPU time (process killed by signal {sig:?})"),
+                    ));
+                    if i + 1 < hi {
+                        let child = std::process::Command::new(&exe)
+                            .args([
+                                "c20-batch".to_string(),
+                                seed.to_string(),
+                                n_random.to_string(),
+                                (i + 1).to_string(),
+                                hi.to_string(),
+                                cpu_limit.to_string(),
+                            ])
+                            .stdout(std::process::Stdio::piped())
+                            .stderr(std::process::Stdio::null())
+                            .spawn()
+                            .map_err(|e| format!("respawn batch: {e}"))?;
+                        queue.push_back((i + 1, hi, child));
+                    }
                 }
                 _ => {
                     return Err(format!(
@@ -737,9 +846,16 @@ pub fn main(tier: Tier) -> i32 {
     let mut known_hits = 0;
     let mut seen = HashSet::new();
     let mut harness_errors = Vec::new();
+    let mut slow: Vec<(u64, String)> = Vec::new();
     for r in &outcome.results {
         if r.measured.outcome.starts_with("harness:") {
             harness_errors.push(format!("case {}: {}", r.index, r.measured.outcome));
+        }
+        if !r.measured.exceeded && r.measured.cpu_ms > CPU_CASE_LIMIT_MS {
+            slow.push((r.index, format!(
+                "case {} finished but used {} ms of CPU time (limit {} ms) while passing only {} hook ticks",
+                r.index, r.measured.cpu_ms, CPU_CASE_LIMIT_MS, r.measured.ticks
+            )));
         }
         if !r.measured.exceeded {
             continue;
@@ -787,9 +903,13 @@ pub fn main(tier: Tier) -> i32 {
         ));
         lines.push(format!("VIOLATION property=C20 replay={}", path.display()));
     }
-    for (index, what) in &outcome.backstop {
+    let mut cpu_seen = HashSet::new();
+    for (index, what) in outcome.backstop.iter().chain(slow.iter()) {
         let (family, validate) = &cases[*index as usize];
         let class = "cpu_backstop".to_string();
+        if !cpu_seen.insert(family.name()) {
+            continue;
+        }
         let trigger = family.name().to_string();
         if let Some(k) = known.lookup("C20", &class, &trigger) {
             known_hits += 1;
@@ -926,11 +1046,40 @@ pub fn replay(path: &str, doc: &serde_json::Value) -> i32 {
     };
     let validate = doc["validate"].as_bool().unwrap_or(false);
     if doc["failure_class"].as_str() == Some("cpu_backstop") {
-        // Run under the same kind of CPU limit; SIGXCPU ends this process with a signal.
-        unsafe {
-            let lim = libc::rlimit { rlim_cur: 120, rlim_max: 125 };
-            libc::setrlimit(libc::RLIMIT_CPU, &lim);
-        }
+        // Measure in a child under the same CPU cap so that a runaway cannot take this process along.
+        let exe = std::env::current_exe().unwrap();
+        let tmp = std::env::temp_dir().join(format!("wgsl-sim-c20-replay-{}.wgsl", std::process::id()));
+        let _ = std::fs::write(&tmp, src);
+        let out = std::process::Command::new(exe)
+            .args(["c20-one", &tmp.to_string_lossy(), if validate { "1" } else { "0" }])
+            .output();
+        let _ = std::fs::remove_file(&tmp);
+        use std::os::unix::process::ExitStatusExt;
+        return match out {
+            Ok(o) if o.status.signal().is_some() => {
+                println!("killed by signal {:?} after more than {CPU_CASE_CAP_S} s of CPU time", o.status.signal());
+                println!("REPLAY-EXACT class=cpu_backstop");
+                println!("VIOLATION property=C20 replay={path}");
+                1
+            }
+            Ok(o) => {
+                let text = String::from_utf8_lossy(&o.stdout);
+                print!("{text}");
+                let cpu: u64 = text.split("cpu_ms=").nth(1).and_then(|t| t.trim().split_whitespace().next().map(|x| x.to_string())).and_then(|x| x.parse().ok()).unwrap_or(0);
+                if cpu > CPU_CASE_LIMIT_MS {
+                    println!("REPLAY-EXACT class=cpu_backstop");
+                    println!("VIOLATION property=C20 replay={path}");
+                    1
+                } else {
+                    println!("replay {path}: within the CPU limit on this tree");
+                    0
+                }
+            }
+            Err(e) => {
+                eprintln!("HARNESS-ERROR {e}");
+                2
+            }
+        };
     }
     let m = measure(src, validate);
     println!(
